@@ -110,6 +110,14 @@ func (interp *Interpreter) gta(root *node, rpath, importPath, pkgName string) ([
 			return false
 
 		case defineXStmt:
+			if src := n.lastChild(); src.kind == callExpr {
+				if typ, err2 := nodeType(interp, sc, src.child[0]); err2 != nil || typ == nil || !typ.isComplete() {
+					// The called function is not declared yet: come back when it is.
+					n.meta = err2
+					revisit = append(revisit, n)
+					return false
+				}
+			}
 			err = compDefineX(sc, n)
 			if err != nil {
 				return false
@@ -423,7 +431,7 @@ func (interp *Interpreter) gtaRetry(nodes []*node, importPath, pkgName string) e
 			if err := definedType(n.typ); err != nil {
 				return err
 			}
-		case defineStmt, funcDecl:
+		case defineStmt, defineXStmt, funcDecl:
 			if err, ok := n.meta.(error); ok {
 				return err
 			}
